@@ -391,7 +391,8 @@ def arm_conv(R, b, v, bs, sk, nf, a, f, container, where):
     ch = a["children"][0]
     # field-level error type
     R.add("C11.ERRTY")
-    want_err = f["error"] or ("__Deserr_E" if container["err"] == "generic" else container["err"])
+    import catgen as _cg
+    want_err = f["error"] or (_cg.GENERIC_ERR if container["err"] == "generic" else container["err"])
     got_err = None
     if len(ch["gargs"]) >= 2 and isinstance(ch["gargs"][1], int):
         got_err = crate.types[ch["gargs"][1]]["s"]
